@@ -269,7 +269,7 @@ func c20() []*Ob {
 							c.Violation("prov:tryParseFieldsFilter:whole-query", p.Pos(), "tryParseFieldsFilter parses a transformed piece of the query instead of the query the stores parse: quoting/comments/'|' inside literals make the two disagree and the fetch goes out without the fields filter")
 						}
 					}
-					if len(CallsIn(fn, Callee("parser.ParseSeqQL"))) == 0 {
+					if !Current.HasCall(fn, Callee("parser.ParseSeqQL")) {
 						c.Violation("prov:tryParseFieldsFilter:parser", fn.Pos(), "tryParseFieldsFilter no longer uses parser.ParseSeqQL")
 					}
 					// returns inside the loop at the first PipeFields
